@@ -315,6 +315,68 @@ fn subsets(n: usize) -> Vec<Vec<bool>> {
     (0..(1u32 << n)).map(|m| (0..n).map(|i| m & (1 << i) != 0).collect()).collect()
 }
 
+/// A node that joined mid-chain while loading: it holds only the upper part of branch A (its first
+/// block is A2, the fork point and A1 are unknown to it) and is then offered the whole branch B,
+/// which forks below everything it holds and is not longer than A. Nothing may move.
+fn joined_mid_chain(rep: &mut Report) {
+    let mut specs = vec![];
+    for g in [12u64, 3] {
+        for stem in [vec![], vec![true, false], vec![true, false, true]] {
+            for a in 2..=3usize {
+                for b in 1..=a {
+                    for slow_b in [false, true] {
+                        specs.push(Spec { stem_gt: stem.clone(), a, b, gt_a: (0..a).map(|i| i % 2 == 0).collect(), gt_b: (0..b).map(|i| i % 2 == 0).collect(), slow_a: false, slow_b, sp_a: None, sp_b: None, g, loading: true, invalid_last_b: false });
+                    }
+                }
+            }
+        }
+    }
+    let results = par_map(&specs, workers(), |_, spec| {
+        let mut r = rep.child();
+        let Ok(fk) = build(spec) else {
+            r.outcome("unbuildable-spec");
+            return r;
+        };
+        let w = &fk.w;
+        let mut cfg = w.cfg.clone();
+        cfg.blockchain.initial_loading_completed = false;
+        let mut n = LedgerNode::new(key(9), cfg);
+        let ctx = json!({"joined_mid_chain": true, "g": spec.g, "stem_gt": spec.stem_gt, "a": spec.a, "b": spec.b, "slow_b": spec.slow_b});
+        r.evaluations += 1;
+        for &i in fk.aa[1..].iter() {
+            if !n.add_block_bytes(&w.blocks[i].bytes).is_done() {
+                r.violate("joined-mid-chain/abort", format!("delivery of {}", w.blocks[i].label), ctx.clone());
+                return r;
+            }
+        }
+        let before = n.obs();
+        if before.tip_hash != w.blocks[*fk.aa.last().unwrap()].hash {
+            r.outcome("joined-mid-chain:upper-part-of-A-not-adopted(skipped)");
+            return r;
+        }
+        let mut trace = vec![];
+        for &i in fk.bb.iter() {
+            trace.push(w.blocks[i].label.clone());
+            r.transitions += 1;
+            if !n.add_block_bytes(&w.blocks[i].bytes).is_done() {
+                r.violate("joined-mid-chain/abort", format!("delivery of {}", w.blocks[i].label), ctx.clone());
+                return r;
+            }
+            let o = n.obs();
+            if o.tip_hash != before.tip_hash || o.lc_index != before.lc_index {
+                r.violate("M1/not-strictly-longer/isolated-branch", format!("a node holding A2..A{} (tip height {}) moved to height {} after the isolated blocks {:?} of a branch that is not longer", spec.a, before.tip_id, o.tip_id, trace), ctx.clone());
+                return r;
+            }
+        }
+        r.outcome("joined-mid-chain:isolated-branch-of-no-greater-height-ignored");
+        r.traces_validated += 1;
+        r
+    });
+    for x in results {
+        rep.merge(x);
+    }
+}
+
 pub fn main(tier: Tier, replay: Option<String>) -> i32 {
     let mut rep = Report::new("C05", tier.clone(), "model_checking");
     if replay.is_some() {
@@ -465,9 +527,10 @@ pub fn main(tier: Tier, replay: Option<String>) -> i32 {
         rep.merge(r);
         all.extend(s);
     }
+    joined_mid_chain(&mut rep);
     rep.states = all.len() as u64;
     rep.distinct = all.iter().map(|h| hex::encode(&h[0..8])).collect();
-    rep.required_outcomes = vec!["tip-moved:reorg".into(), "M3-obligation".into(), "longer-but-lighter-offered".into(), "longer-but-sparse-offered".into(), "orphan-delivered".into()];
+    rep.required_outcomes = vec!["joined-mid-chain:isolated-branch-of-no-greater-height-ignored".into(), "tip-moved:reorg".into(), "M3-obligation".into(), "longer-but-lighter-offered".into(), "longer-but-sparse-offered".into(), "orphan-delivered".into()];
     let _: Option<Value> = None;
     rep.finish()
 }
